@@ -552,6 +552,7 @@ async fn history(ctx: &mut Ctx, _case: u64, rng: &mut Rng, w: &mut World, ns_sec
     let max_events = if ctx.is_quick() { 14 } else { 24 };
     let mut dial_budget = rng.range(1, if ctx.is_quick() { 6 } else { 8 });
     let mut events = 0;
+    let mut downloads_queued = 0;
     loop {
         w.step += 1;
         // enabled events
@@ -566,6 +567,7 @@ async fn history(ctx: &mut Ctx, _case: u64, rng: &mut Rng, w: &mut World, ns_sec
             ConnectEnd(usize),
             AcceptEnd(usize),
             StartSyncAgain(usize),
+            QueueDownload(usize),
         }
         let mut evs: Vec<(Ev, u32)> = vec![];
         // sharing a document, or joining more peers, calls start_sync on a document that is being
@@ -585,6 +587,15 @@ async fn history(ctx: &mut Ctx, _case: u64, rng: &mut Rng, w: &mut World, ns_sec
                         let crossing = w.reqs.iter().any(|r| r.from == y && r.to == x);
                         evs.push((Ev::Decide(x, y), if crossing { 6 } else { 2 }));
                     }
+                }
+            }
+        }
+        // content downloads queued for the document while sessions come and go: the coordination
+        // of sessions must not depend on them
+        if events < max_events && downloads_queued < 2 {
+            for x in 0..n {
+                if w.syncing[x] {
+                    evs.push((Ev::QueueDownload(x), 1));
                 }
             }
         }
@@ -695,6 +706,26 @@ async fn history(ctx: &mut Ctx, _case: u64, rng: &mut Rng, w: &mut World, ns_sec
                 };
                 w.kinds.push(if res.is_ok() { "connect-end-ok" } else { "connect-end-err" });
                 w.connect_finished(x, y, reason, res, "session end").await?;
+            }
+            Ev::QueueDownload(x) => {
+                // an entry arrives at x (gossip or an earlier session) whose content x wants and the
+                // sender has: the live actor queues a download, which never completes here
+                downloads_queued += 1;
+                let y = (x + 1) % n;
+                let data = format!("c11-content-{}-{}", w.step, rng.next_u64());
+                let rec = iroh_docs::Record::new(iroh_blobs::Hash::new(data.as_bytes()), data.len() as u64, 1_700_000_000_000_000 + w.step as u64);
+                let author = iroh_docs::Author::from_bytes(&[21u8; 32]);
+                let entry = iroh_docs::SignedEntry::from_parts(ns_secret, &author, format!("k{}", w.step).as_bytes(), rec);
+                let ev = iroh_docs::Event::RemoteInsert { namespace: ns, entry, from: *w.nodes[y].id.as_bytes(), should_download: true, remote_content_status: iroh_docs::ContentStatus::Complete };
+                let before: Vec<Option<String>> = (0..n).map(|y| if y == x { None } else { w.running(x, y) }).collect();
+                let _ = w.nodes[x].actor.verif_on_replica_event(ev).await;
+                let dials = w.nodes[x].actor.verif_take_dials();
+                w.kinds.push("queue-download");
+                ctx.count("content_downloads_queued", 1);
+                w.trace.push(format!("{}: n{x} queues a content download for the document", w.step));
+                if !dials.is_empty() || (0..n).any(|y| y != x && w.running(x, y) != before[y]) {
+                    return Err(("content-download-changed-the-session-coordination".into(), json!({"node": x, "trace": w.trace})));
+                }
             }
             Ev::StartSyncAgain(x) => {
                 let before: Vec<Option<String>> = (0..n).map(|y| if y == x { None } else { w.running(x, y) }).collect();
